@@ -118,8 +118,9 @@ BUILTIN_EXC = {
 
 
 class Interp:
-    def __init__(self, repo, externals=None, to_float=None, str_hook=None):
+    def __init__(self, repo, externals=None, to_float=None, str_hook=None, set_reverse=True):
         self.repo = repo
+        self.set_reverse = set_reverse  # which of the two fixed iteration orders sets are given (order is unspecified)
         self.str_hook = str_hook  # (string, method name) -> callable or None: token-aware string methods
         self.externals = externals or {}
         self.to_float = to_float
@@ -719,7 +720,11 @@ class Interp:
     def iterate(self, v, node=None):
         if hasattr(v, "m_iter"):
             return v.m_iter(self)
-        if isinstance(v, (list, tuple, str, dict, set, frozenset, range)):
+        if isinstance(v, (set, frozenset)):
+            # iteration order of a set is unspecified: take a fixed, deliberately non-insertion order so that code
+            # relying on it is judged the same way on every run
+            return sorted(v, key=repr, reverse=self.set_reverse)
+        if isinstance(v, (list, tuple, str, dict, range)):
             return list(v)
         raise Undecided("iteration over %s (line %s)" % (type(v).__name__, getattr(node, "lineno", "?")))
 
